@@ -312,6 +312,10 @@ Inductive event := EComplete (f : fid) | EPoll.
 Inductive obs :=
 | OPending | OSome (s : html) | ONone | OWake (n : N) | OStall | OBound | OFuel | OPanic.
 
+(** concatenation of the chunks a run emitted *)
+Definition somes (l : list obs) : html :=
+  flat_map (fun o => match o with OSome s => s | _ => [] end) l.
+
 Definition memf (f : fid) (l : list fid) : bool := existsb (N.eqb f) l.
 Definition removef (f : fid) (l : list fid) : list fid := filter (fun g => negb (N.eqb f g)) l.
 
